@@ -589,19 +589,17 @@ impl EventGen for IfElement {
 /// This does *not* check that the entire doc is valid, and is intended
 /// to be fast in common cases.
 fn is_real_svg(events: &InputList) -> bool {
-    for ev in events.iter() {
-        if let Ok(el) = SvgElement::try_from(ev.clone()) {
+    // The first element decides. Only its name and `xmlns` are looked at: whatever
+    // else the start tag holds (say a reference to an entity the DOCTYPE declares)
+    // is passed through and need not make sense to svgdx.
+    events
+        .iter()
+        .find_map(|ev| ev.start_name_and_xmlns())
+        .is_some_and(|(name, xmlns)| {
             // "Real" SVG documents will have an `xmlns` attribute with
             // the value "http://www.w3.org/2000/svg"
-            if el.name == "svg" {
-                if let Some(val) = el.get_attr("xmlns") {
-                    return val == "http://www.w3.org/2000/svg";
-                }
-            }
-            return false;
-        }
-    }
-    false
+            name == "svg" && xmlns.as_deref() == Some("http://www.w3.org/2000/svg")
+        })
 }
 
 impl EventGen for Tag {
